@@ -295,6 +295,8 @@ class Verdict:
 
 
 def write_evidence(prop, tier, seed, coverage, assumptions, wall, violations, level="model_checking"):
+    if os.environ.get("VERIF_NO_EVIDENCE"):   # seeded-change evaluation (run/seeded.py): the tree is not the real one
+        return None
     os.makedirs(os.path.join(VERIF, "evidence"), exist_ok=True)
     ev = dict(property_id=prop, tier=tier, seed=int(seed), level=level, coverage=coverage,
               assumptions=assumptions, wall_s=round(wall, 2), violations=int(violations))
